@@ -69,6 +69,14 @@ def deliveries(lines, tier):
 
 
 MODES = [("plain", None, None), ("fit8", 8, None), ("fit16", 16, None), ("count16", None, 16)]
+# chunk sizes that do not divide the growth quantum: padding can then straddle a growth threshold, and every phase of the
+# instruction grid relative to the threshold is reached by prefixing 0..c-1 one-byte instructions
+PHASE_CHUNKS = (7, 14, 16, 24)
+
+
+def phase_program(q):
+    """q one-byte nops (never padded, so the next instruction is attempted exactly at position q), three 10-byte movs, ret."""
+    return [("nop", 1)] * q + [(MOV, 10)] * 3 + [("ret", 1)]
 
 
 def rle(p):
@@ -141,7 +149,9 @@ def run(tier, seed):
     rep = Report(PROP, tier, seed)
     rep.rule = ("programs `mov rax, V; ...; ret` whose total length takes EVERY value within +-40 bytes of 1x, 2x(, 3x) the growth "
                 "quantum (6000) and multiples of 97/970 below 19000; delivered in one call, in two calls split at every line "
-                "near each growth threshold, and one call per line near it; modes plain / fitting c=8,16 / counting c=16; each run "
+                "near each growth threshold, and one call per line near it; modes plain / fitting c=8,16 / counting c=16; plus chunk "
+                "fitting with chunk sizes 7, 14, 16, 24 and a 10-byte instruction attempted at EVERY position from c+2 bytes before "
+                "to 2 bytes after the growth point (reached with a run of one-byte instructions), so that a padding straddles it; each run "
                 "twice: natural mremap and mremap FORCED TO MOVE the mapping (wrap seam; the old range disappears); oracle: every "
                 "call succeeds, after every call code[0,offset) equals the same calls on a 64 KiB caller buffer, the number of "
                 "mremap calls equals the documented capacity model, and the code is called and returns V. distinct_nontrivial = "
@@ -155,6 +165,13 @@ def run(tier, seed):
                     continue
                 for plan in ("", "M"):
                     jobs.append((total, dname, parts, mname, fit, cnt, plan))
+    for c in PHASE_CHUNKS:
+        for thr in ((1,) if tier == "quick" else (1, 2)):
+            cap = thr * QUANTUM + RESERVE
+            for q in range(cap - RESERVE - c - 2, cap - RESERVE + 3):
+                lines = phase_program(q)
+                for plan in ("", "M"):
+                    jobs.append((q, "phase%d@%d" % (c, q), [lines], "fit%d" % c, c, None, plan))
     B = 4000
     for k in range(0, len(jobs), B):
         if rep.expired():
@@ -193,9 +210,14 @@ def run(tier, seed):
 
 
 def replay(r, verbose=False):
-    lines = program(r["total"])
-    parts = dict(deliveries(lines, "thorough"))[r["delivery"]]
-    mname, fit, cnt = next(m for m in MODES if m[0] == r["mode"])
+    if r["delivery"].startswith("phase"):
+        c, q = [int(x) for x in r["delivery"][5:].split("@")]
+        parts = [phase_program(q)]
+        mname, fit, cnt = "fit%d" % c, c, None
+    else:
+        lines = program(r["total"])
+        parts = dict(deliveries(lines, "thorough"))[r["delivery"]]
+        mname, fit, cnt = next(m for m in MODES if m[0] == r["mode"])
     res = hexec.run([hist("i", parts, fit, cnt, r["plan"]), hist("c65536:p:cc", parts, fit, cnt, "")], variant="wrap",
                     dangerous=True, nproc=1, timeout=30)
     disc = judge(r["total"], parts, fit, cnt, res[0], res[1])
